@@ -40,6 +40,9 @@ ParThor == {ParT2}
 
 ParOnlyEmpty == {Empty}
 
+\* what the other cache object on the same directory stores (under a checksum of Crcs)
+OtherTabs == {LogT2}
+
 Crcs2 == {"1111BEEF", "2222BEEF"}
 CrcSeq2 == <<"1111BEEF", "2222BEEF">>
 Crcs3 == {"1111BEEF", "2222BEEF", "00000000"}
